@@ -70,6 +70,104 @@ mut("cell-counter", ARN, "    last_free_slot: Option<usize>,\n}", "    last_free
 mut("unsafe-index", "indextree/src/lib.rs", "#![forbid(unsafe_code)]", "#![deny(unsafe_code)]", ["C18"])
 
 
+# ---- behaviour-preserving refactors: every check must stay silent on these
+mut("rf-cn-match", REL, """    let (mut parent_first_child, mut parent_last_child) = parent
+        .map(|id| &arena[id])
+        .map_or((None, None), |node| (node.first_child, node.last_child));""",
+    """    let (mut parent_first_child, mut parent_last_child) = match parent {
+        Some(id) => {
+            let node = &arena[id];
+            (node.first_child, node.last_child)
+        }
+        None => (None, None),
+    };""", [], silent=True)
+mut("rf-cn-reorder-writes", REL, """        parent_node.first_child = parent_first_child;
+        parent_node.last_child = parent_last_child;""", """        parent_node.last_child = parent_last_child;
+        parent_node.first_child = parent_first_child;""", [], silent=True)
+mut("rf-detach-helper", IDR, """        let range = SiblingsRange::new(self, self).detach_from_siblings(arena);
+        range
+            .rewrite_parents(arena, None)""", """        let single = SiblingsRange::new(self, self);
+        let range = single.detach_from_siblings(arena);
+        let res = range.rewrite_parents(arena, None);
+        res""", [], silent=True)
+mut("rf-append-iflet", IDR, """        if arena[self].is_removed() || arena[new_child].is_removed() {
+            return Err(NodeError::Removed);
+        }
+        if self.ancestors(arena).any(|ancestor| new_child == ancestor) {
+            return Err(NodeError::AppendAncestor);""", """        let self_removed = arena[self].is_removed();
+        let child_removed = arena[new_child].is_removed();
+        if self_removed || child_removed {
+            return Err(NodeError::Removed);
+        }
+        let mut is_ancestor = false;
+        for ancestor in self.ancestors(arena) {
+            if new_child == ancestor {
+                is_ancestor = true;
+                break;
+            }
+        }
+        if is_ancestor {
+            return Err(NodeError::AppendAncestor);""", [], silent=True, note="replaces Iterator::any by an explicit for loop over the same iterator")
+mut("rf-rewrite-parents-loop", SIB, """        let mut child_opt = Some(self.first);
+        while let Some(child) = child_opt {
+            if Some(child) == new_parent {
+                // Attempt to set the node itself as its parent.
+                return Err(ConsistencyError::ParentChildLoop);
+            }
+            let child_node = &mut arena[child];
+            child_node.parent = new_parent;
+            child_opt = child_node.next_sibling;
+        }""", """        let mut child = self.first;
+        loop {
+            if Some(child) == new_parent {
+                // Attempt to set the node itself as its parent.
+                return Err(ConsistencyError::ParentChildLoop);
+            }
+            arena[child].parent = new_parent;
+            match arena[child].next_sibling {
+                Some(next) => child = next,
+                None => break,
+            }
+        }""", [], silent=True, note="same walk written as loop/match with a NodeId cursor")
+mut("rf-free-node-match", ARN, """            if let Some(index) = self.last_free_slot {
+                let new_last = id.index0();
+                self.nodes[index].data = NodeData::NextFree(Some(new_last));
+                self.last_free_slot = Some(new_last);
+            } else {""", """            if self.last_free_slot.is_some() {
+                let index = self.last_free_slot.unwrap();
+                let new_last = id.index0();
+                self.last_free_slot = Some(new_last);
+                self.nodes[index].data = NodeData::NextFree(Some(new_last));
+            } else {""", [], silent=True)
+mut("rf-next-traverse-iflet", TRV, """            NodeEdge::Start(node) => match arena[node].first_child {
+                Some(first_child) => Some(NodeEdge::Start(first_child)),
+                None => Some(NodeEdge::End(node)),
+            },""", """            NodeEdge::Start(node) => {
+                if let Some(first_child) = arena[node].first_child {
+                    Some(NodeEdge::Start(first_child))
+                } else {
+                    Some(NodeEdge::End(node))
+                }
+            }""", [], silent=True)
+mut("rf-new-node-len-first", ARN, """            let index = self.nodes.len();
+            let node = Node::new(data);
+            let stamp = node.stamp;
+            self.nodes.push(node);
+            (index, stamp)""", """            let node = Node::new(data);
+            let stamp = node.stamp;
+            let index = self.count();
+            self.nodes.push(node);
+            (index, stamp)""", [], silent=True)
+mut("rf-is-removed-cmp", IDR, """        self.0.is_negative()""", """        self.0 < 0""", [], silent=True)
+mut("rf-get-node-id-at-match", ARN, """        self.nodes
+            .get(index0)
+            .filter(|n| !n.is_removed())
+            .map(|node| NodeId::from_non_zero_usize(index, node.stamp))""", """        match self.nodes.get(index0) {
+            Some(node) if !node.is_removed() => Some(NodeId::from_non_zero_usize(index, node.stamp)),
+            _ => None,
+        }""", [], silent=True)
+
+
 def run_one(m, args):
     t0 = time.time()
     src = os.path.join(REPO, m["file"])
@@ -97,7 +195,7 @@ def run_one(m, args):
             res["tests_pass"] = r.returncode == 0
         props = m["props"] if not args.props else [p for p in m["props"] if p in args.props]
         if m["silent"]:
-            props = args.props or ["C01", "C03", "C05", "C11"]
+            props = args.props or ["C01", "C02", "C03", "C04", "C05", "C06", "C07", "C08", "C09", "C10", "C11", "C12", "C13", "C14", "C17", "C18"]
         for p in props:
             if not os.path.exists(os.path.join(HERE, "props", p + ".py")):
                 res["props"][p] = "no-check"
